@@ -620,13 +620,18 @@ def applyMods (cfg : Cfg) (st : St) (ms : List Mod) (m : Msg) : Option Msg :=
       if md.name = "cm" then cs.dropLast
       else if md.name = "cp" then cs ++ [(5, 0)]
       else cs) cs))
-  | .acc4 _ ks => some (.acc4 h (keyMods st ms ks))
-  | .acc8 _ ks => some (.acc8 h (keyMods st ms ks))
-  | .reveal _ ks => some (.reveal h (keyMods st ms ks))
+  -- `ox`: a raw wire map key above 255 makes the real Unmarshal reject the whole message
+  | .acc4 _ ks => if hasMod ms "ox" then none else some (.acc4 h (keyMods st ms ks))
+  | .acc8 _ ks => if hasMod ms "ox" then none else some (.acc8 h (keyMods st ms ks))
+  | .reveal _ ks => if hasMod ms "ox" then none else some (.reveal h (keyMods st ms ks))
   | .points _ ps =>
     some (.points h (ms.foldl (fun ps md =>
       if md.name = "pm" then ps.dropLast
       else if md.name = "pp" then ps ++ [5]
+      else if md.name = "px" then
+        let delta := md.args.foldl (polyMulLinear st.q) [coef st.q cfg.seed st.id 50]
+        (List.range (max (cfg.t + 1) delta.length)).map (fun k =>
+          ((if k ≤ cfg.t then coef st.q cfg.seed st.id k else 0) + delta.getD k 0) % st.q)
       else if md.name = "pt" then
         let delta := (md.args.take cfg.t).foldl (polyMulLinear st.q) [coef st.q cfg.seed st.id 50]
         (List.range (cfg.t + 1)).map (fun k => (coef st.q cfg.seed st.id k + delta.getD k 0) % st.q)
